@@ -70,7 +70,15 @@ def check_json_cursor(chk, ix):
     s2a = _tok(st, "Step", "s2a", status=S("passed"))
     sc1 = _tok(st, "Scenario", "S1", status=S("failed"))
     sc2 = _tok(st, "Scenario", "S2", status=S("passed"))
-    bg = _tok(st, "Background", "B", steps=bsteps)
+    # the Rule's background is a real Background object: it has ONE own step and INHERITS the feature background's step;
+    # its JSON element lists its own steps (the inherited ones belong to the feature-level background element)
+    bgc = ix.cls("behave.model:Background")
+    b_own = _tok(st, "Step", "b-own", status=S("untested"))
+    b_inh = _tok(st, "Step", "b-inherited", status=S("untested"))
+    fbg = st.alloc(HObj(bgc, {"keyword": "Background", "name": "FB", "location": "f:2", "steps": st.alloc(HObj("list", kind="list", items=[b_inh])),
+                              "inherited_background": None, "_inherited_steps": None, "_use_inheritance": True}, label="feature background"))
+    bg = st.alloc(HObj(bgc, {"keyword": "Background", "name": "B", "location": "f:9", "steps": st.alloc(HObj("list", kind="list", items=[b_own])),
+                             "inherited_background": fbg, "_inherited_steps": None, "_use_inheritance": True}, label="rule background"))
     match = st.alloc(HObj("MatchTok", {"arguments": st.alloc(HObj("list", kind="list", items=[])), "location": "steps.py:1"}, label="match"))
     script = [("feature", feature), ("scenario", sc1), ("step", s1a), ("step", s1b), ("step", s1c),
               ("match", match), ("result", s1a), ("match", match), ("result", s1b), ("match", match), ("result", s1c),
@@ -110,6 +118,15 @@ def check_json_cursor(chk, ix):
         _fail(chk, "F5", "behave.formatter.json:JSONFormatter", m.file, m.lineno, "elements %s" % got,
               "JSON elements after [S1 failed, rule background B, S2 passed] are %s, expected %s: a status is attached to "
               "the wrong element" % (got, want))
+    chk.instance("F5")
+    bsteps_got = [d(x).get("name") for x in cur.obj(elements[1]["steps"]).items] if len(elements) > 1 and isinstance(elements[1].get("steps"), Ref) else None
+    if bsteps_got == ["b-own"]:
+        chk.ok("F5", {"rule background element": "lists its own steps", "steps": bsteps_got}, nontrivial_key="background steps")
+    else:
+        m = jc.lookup("background")
+        _fail(chk, "F5", m.fullname, m.file, m.lineno, "background element steps %s" % bsteps_got,
+              "the JSON element of a Rule background with the own step b-own (and a step inherited from the feature background) lists the "
+              "steps %s, expected ['b-own']: inherited steps are reported twice" % bsteps_got)
     # step results in order
     chk.instance("F5")
     s1 = [d(x) for x in cur.obj(elements[0]["steps"]).items] if isinstance(elements[0].get("steps"), Ref) else []
